@@ -36,6 +36,7 @@ PROPS = {
         title='Reverse stepping exactly undoes forward stepping',
         verus_units=['state'],
         kani_groups=[],
+        frame_scan=True,
         design_ref='DESIGN.md section 5 / C02',
         technique='Verus contracts over a ghost machine model and an undo semantics of the reverse log: every recording primitive, '
                   'reverse_changes and fetch_and_run (all 21 opcode arms, verbatim) are proved against it, unbounded in stack depth and log length',
@@ -54,6 +55,7 @@ PROPS = {
         title='Resource limits are hard bounds and hitting one is recoverable',
         verus_units=['state'],
         kani_groups=[],
+        frame_scan=True,
         design_ref='DESIGN.md section 5 / C14',
         technique='Verus contracts on check_stack_limit/push_data, check_heap_limit/alloc_heap, insn_meter_increase/fetch_and_run and the set_*_limit words',
         level_text='Deductive proof for all states and limit values: push_data succeeds iff len < S (so the stack never exceeds S), alloc_heap iff '
